@@ -54,6 +54,75 @@ fn aead_grid(ctx: &Ctx) {
     ctx.note("aead_grid", json!({"plaintext_lengths": "0..=130", "aad_lengths": "0..=40", "keys": keys, "exhaustive": true}));
 }
 
+/// Large inputs: plaintext / associated data / hash input lengths around every power of two up to 4 MiB
+/// (thorough: 64 MiB), and a few odd sizes in between; same oracles.
+fn large_inputs(ctx: &Ctx) {
+    let top = ctx.tier.pick(22u32, 26u32);
+    let mut lens: Vec<usize> = Vec::new();
+    for e in 8..=top {
+        for d in [-1i64, 0, 1] {
+            lens.push(((1i64 << e) + d) as usize);
+        }
+    }
+    lens.extend_from_slice(&[300_007, 1_500_001, 3 * (1 << 20) + 17]);
+    par_for(lens.len(), crate::util::ncpu(), |i| {
+        let l = lens[i];
+        let mut rng = Rng::fork(ctx.seed, &format!("C19-large-{}", l));
+        let key = rng.arr32();
+        let nonce: [u8; 12] = rng.bytes(12).try_into().unwrap();
+        let pt = rng.bytes(l);
+        let aad = if i % 3 == 0 { rng.bytes(l.min(70_000)) } else { rng.bytes(i % 40) };
+        ctx.eval();
+        let want = ossl::aead_seal(&key, &nonce, &aad, &pt);
+        let case = || json!({"plaintext_len": l, "aad_len": aad.len(), "key": hex(&key), "nonce": hex(&nonce)});
+        match guarded(|| chapoly_encrypt_ietf(&key, &nonce, &pt, &aad)) {
+            Ok(g) if g == want => {}
+            Ok(g) => {
+                let mut v = case();
+                v["first_difference_at"] = json!(g.iter().zip(want.iter()).position(|(a, b)| a != b));
+                ctx.violation("C19:aead:seal-differs-from-rfc8439:large-input", v);
+                return;
+            }
+            Err(p) => {
+                ctx.violation(&format!("C19:aead:seal-panic:{}", panic_site(&p)), case());
+                return;
+            }
+        }
+        match guarded(|| chapoly_decrypt_ietf(&key, &nonce, &want, &aad)) {
+            Ok(Ok(p)) if p == pt => {}
+            Ok(r) => {
+                let mut v = case();
+                v["open_result"] = json!(match &r { Ok(p) => format!("Ok, first difference at {:?}", p.iter().zip(pt.iter()).position(|(a, b)| a != b)), Err(_) => "Err".to_string() });
+                ctx.violation("C19:aead:open-does-not-invert-seal:large-input", v);
+                return;
+            }
+            Err(p) => {
+                ctx.violation(&format!("C19:aead:open-panic:{}", panic_site(&p)), case());
+                return;
+            }
+        }
+        // one flipped bit far into a large ciphertext must still be refused
+        let mut bad = want.clone();
+        let at = bad.len() / 2 + i;
+        bad[at.min(want.len() - 1)] ^= 0x10;
+        if !matches!(guarded(|| chapoly_decrypt_ietf(&key, &nonce, &bad, &aad)), Ok(Err(_))) {
+            ctx.violation("C19:aead:tampered-large-ciphertext-accepted", case());
+            return;
+        }
+        if sha256(&pt)[..] != ossl::sha256(&pt)[..] {
+            ctx.violation("C19:sha256:differs", json!({"len": l}));
+            return;
+        }
+        if hmac_sha256(&pt[..l.min(100_000)], &pt)[..] != ossl::hmac_sha256(&pt[..l.min(100_000)], &pt)[..] {
+            ctx.violation("C19:hmac:differs", json!({"key_len": l.min(100_000), "data_len": l}));
+            return;
+        }
+        ctx.seen("large input: AEAD seal/open, SHA-256 and HMAC equal OpenSSL");
+        ctx.distinct(&format!("large|{}", l));
+    });
+    ctx.note("large_inputs", json!({"lengths": lens}));
+}
+
 fn aead_tamper(ctx: &Ctx) {
     let n = ctx.tier.pick(12, 600);
     par_for(n, crate::util::ncpu(), |i| {
@@ -439,9 +508,11 @@ pub fn run(ctx: &Ctx) {
     ctx.assume("OpenSSL 3.0 primitives and the RFC 7748 ladder (self-tested) are the reference");
     aead_grid(ctx);
     aead_tamper(ctx);
+    large_inputs(ctx);
     x25519_block(ctx);
     hash_block(ctx);
     nonce_block(ctx);
+    ctx.require("large input: AEAD seal/open", 40);
     ctx.require("aead: seal == OpenSSL", 10_000);
     ctx.require("aead open rejects altered", 1000);
     ctx.require("x25519 == RFC 7748", 1000);
